@@ -210,6 +210,13 @@ def run(pid, tier, seed):
                 func = obj.__func__ if isinstance(obj, (classmethod, staticmethod)) else (obj.fget if isinstance(obj, property) else obj)
                 m["func"] = func
                 args = {p[0]: int for p in m["params"] if p[1] not in ("recv",)}
+                if m["params"] and m["params"][0][1] == "recv":
+                    # the real tracer records the receiver like any other argument: the instance's class / Type[class]
+                    owner = mod
+                    for part in m["qual"].split(".")[:-1]:
+                        owner = getattr(owner, part)
+                    import typing
+                    args = dict({m["params"][0][0]: owner if m["params"][0][0] == "self" else typing.Type[owner]}, **args)
                 traces.append(CallTrace(func, args, int, int if m["fkind"] in ("generator", "generator_method") else None))
             chk.evaluations += 1
             case = {"module": name, "traced": [m["qual"] for m in traced]}
